@@ -473,6 +473,30 @@ def check_all(prop: str, pkg, opts, res) -> list:
                     mark = d["spec"]["doc"]
                     if mark not in "\n".join(stubparse.doc_lines(decl.doc)):
                         fail("C13", f"description of {q} is missing from its documentation comment", decl=q, marker=mark)
+        if prop == "C13" and opts.get("style") in ("numpydoc", "google", "rest"):
+            # parameter descriptions reach the @param line of their own function (constructor parameters: the class comment;
+            # their descriptions are written into the __init__ docstring, which only the numpydoc reader consults)
+            for q, d in truth.decls.items():
+                if d["module"]["qname"] in excluded or d["kind"] not in ("fun", "ctor") or d["spec"].get("synthetic"):
+                    continue
+                if d["kind"] == "ctor":
+                    if opts.get("style") != "numpydoc":
+                        continue
+                    od = truth.decls[q[: -len(".__init__")]]
+                else:
+                    od = d
+                if not truth.plainly_public(od) or (d["kind"] == "fun" and not truth.plainly_public(d)):
+                    continue
+                found = [x for loc in dict.fromkeys(locations(truth, od)) for x in stubs.decls.get(loc, [])]
+                if len(found) != 1 or not found[0][0].doc:
+                    if len(found) == 1 and any(p["doc"] for p in d["spec"]["params"]) and d["kind"] == "ctor":
+                        fail("C13", f"the parameter descriptions of {q} are missing: the class has no documentation comment", decl=q)
+                    continue
+                text = "\n".join(stubparse.doc_lines(found[0][0].doc))
+                for p in d["spec"]["params"]:
+                    if p["doc"] and p["doc"] not in text:
+                        fail("C13", f"description of parameter {p['name']!r} of {q} is missing from the documentation comment",
+                             decl=q, param=p["name"], marker=p["doc"])
         if prop == "C13":
             # every marker occurs in the documentation of its own element only
             all_text = "\n".join(t for p, t in res["files"].items() if p.endswith(".sdsstub"))
